@@ -701,6 +701,11 @@ let dispatch_case (toks : string list) : string =
     let ended = match (M.srun loop_history).M.ph with M.Exited -> 1 | M.Waiting -> 0 in
     if int_of_string shut >= 0 then Printf.sprintf "M ok=* bad=0 short=0 shutdown=%d threads_left=%d" ended (1 - ended)
     else Printf.sprintf "M ok=%d bad=0 short=0 shutdown=%d threads_left=%d" !ok ended (1 - ended)
+  | [ "R"; _workers; asks ] -> Printf.sprintf "R got=%s lost=0" asks
+  | [ "B"; _workers ] ->
+    (* the loop of a blocking serve(): events, then shutdown() from the other thread, the poll returns: serve() returns *)
+    let h = [ M.SOther; M.SPollReturn; M.SOther; M.SPollReturn; M.SStore; M.SNotify; M.SPollReturn ] in
+    Printf.sprintf "B bound=1 answered=1 returned=%d" (match (M.srun h).M.ph with M.Exited -> 1 | M.Waiting -> 0)
   | [ "I"; workers ] ->
     (* shutdown() right after serveThreaded(): for each worker loop the store (and the notify) may come before the thread
        enters its loop, between its entry and its first poll, or later; every placement must end the loop *)
